@@ -121,7 +121,7 @@ SPECS = {
 
 def explore_c11(spec, res, a):
     n = 600 if a.tier == "quick" else 20000
-    rc = V.standard_explore(spec, res, a, [("h_conc", ["-seed", str(res.seed), "-n", str(n), "-stress", str(n), "-storm", str(n)])])
+    rc = V.standard_explore(spec, res, a, [("h_conc", ["-seed", str(res.seed), "-n", str(n), "-stress", str(n), "-storm", str(n), "-late", str(min(4 * n, 20000))])])
     rc |= V.race_run(res, "h_conc", ["-seed", str(res.seed), "-n", "0", "-stress", "300" if a.tier == "quick" else "5000", "-storm", "20" if a.tier == "quick" else "300"])
     return rc
 
